@@ -2,6 +2,7 @@ package main
 
 import (
 	"fmt"
+	"strconv"
 	"go/constant"
 	"go/token"
 	"go/types"
@@ -60,6 +61,7 @@ type PathResult struct {
 	Violations   []Violation    `json:"violations"`
 	Reached      map[string]int `json:"reached"`
 	Funcs        []string       `json:"funcs"`
+	Blocks       []string       `json:"blocks,omitempty"` // library basic blocks first executed by this worker on this path
 	Queries      int            `json:"queries"`
 	SolverMs     int64          `json:"solver_ms"`
 	Steps        int            `json:"steps"`
@@ -86,6 +88,7 @@ type Engine struct {
 	res     *PathResult
 	harness string
 	funcs   map[string]bool
+	newBlocks []string
 	exts    map[string]bool
 	conc    map[string]int64
 
@@ -389,6 +392,7 @@ func (e *Engine) call(fn *ssa.Function, args []Value, bind []Value) Value {
 	for {
 		var next *ssa.BasicBlock
 		var nextArrs []arrival
+		e.cover(b)
 		f.visit[b]++
 		if f.visit[b] > e.unwind {
 			panic(pathAbort{fmt.Sprintf("unwinding bound %d exceeded in %s block %d", e.unwind, fn.Name(), b.Index)})
@@ -698,4 +702,59 @@ func (e *Engine) where() string {
 		return e.site
 	}
 	return fmt.Sprintf("%s @ %s", e.siteFn.Name(), e.prog.Fset.Position(e.siteTok))
+}
+
+// ---- block coverage of the library (package under test, harness overlay files excluded)
+
+// reportedBlocks: blocks this worker process has already reported (coverage is a union,
+// so every block is sent to the coordinator once per worker).
+var reportedBlocks = map[*ssa.BasicBlock]bool{}
+
+func (e *Engine) cover(b *ssa.BasicBlock) {
+	if reportedBlocks[b] {
+		return
+	}
+	reportedBlocks[b] = true
+	if id := blockID(e.prog, e.pkg, b); id != "" {
+		e.newBlocks = append(e.newBlocks, id)
+	}
+}
+
+// blockID names a basic block of a library function as "<function>#<index>"; instances of
+// generic functions are mapped to their origin. "" for harness code and other packages.
+func blockID(prog *ssa.Program, pkg *ssa.Package, b *ssa.BasicBlock) string {
+	fn := b.Parent()
+	root := fn
+	for root.Parent() != nil {
+		root = root.Parent()
+	}
+	if o := root.Origin(); o != nil {
+		root = o
+	}
+	if root.Pkg != pkg {
+		return ""
+	}
+	pos := fn.Pos()
+	if !pos.IsValid() {
+		pos = root.Pos()
+	}
+	if !pos.IsValid() || strings.Contains(prog.Fset.Position(pos).Filename, "zz_verif_") {
+		return ""
+	}
+	name := fn.String()
+	if o := fn.Origin(); o != nil {
+		name = o.String()
+	} else if fn.Parent() != nil && root != fn {
+		// anonymous function of a generic instance: name it after the origin
+		name = root.String() + strings.TrimPrefix(fn.String(), rootInstanceName(fn))
+	}
+	return name + "#" + strconv.Itoa(b.Index)
+}
+
+func rootInstanceName(fn *ssa.Function) string {
+	r := fn
+	for r.Parent() != nil {
+		r = r.Parent()
+	}
+	return r.String()
 }
